@@ -862,22 +862,12 @@ func (s *state) oracle(h *rt.H) {
 		if s.hypOK {
 			if ok, kind, from, what := s.dp.closedK(); !ok {
 				sig := "dangling-" + kind
-				if kind == "route-vtep" {
-					// is the dangling route about to be re-pointed by a RouteUpdate later in this same flush?
-					for _, later := range s.evs[i+1:] {
-						if ru, isRU := later.(*proto.RouteUpdate); isRU && ru.Dst == from {
-							sig = "dangling-route-vtep-until-route-update"
-							break
-						}
-					}
-				}
 				if !s.reported[sig] {
 					s.reported[sig] = true
 					h.OracleFail(sig, fmt.Sprintf("after emitted message #%d (%s) the dataplane holds a dangling reference: %s", i, render(ev).class, what), input(i))
 				}
-				if sig != "dangling-route-vtep-until-route-update" {
-					s.hypOK = false
-				}
+				_ = from
+				s.hypOK = false
 			}
 		}
 	}
